@@ -90,6 +90,7 @@ type Exec struct {
 	selForks   map[*ssa.Select]int
 	idleSpins  int
 	inCallback bool
+	thr        *threadState
 }
 
 type ufApp struct {
@@ -373,7 +374,7 @@ func (ex *Exec) global(g *ssa.Global) *Value {
 
 func isEngineAbort(p interface{}) bool {
 	switch p.(type) {
-	case pathEnd:
+	case pathEnd, threadKill:
 		return true
 	}
 	return false
